@@ -1008,6 +1008,19 @@ pub fn complementary_derivatives_family(pool: &Pool) -> Vec<T> {
 /// Terms with many derivative classes (sizes around 8/16/32: searches over the class list change strategy there).
 pub fn many_classes_family() -> Vec<T> {
     let mut v = vec![];
+    // long strings, long lists of operands (sizes around 16/32/64/256)
+    for &n in &[17usize, 33, 65, 257] {
+        let w: Vec<u32> = (0..n).map(|i| 97 + (i as u32 * 7) % 5).collect();
+        v.push(T::Str(w.clone()));
+        if n <= 65 {
+            v.push(T::Cat2(Box::new(T::Str(w.clone())), Box::new(T::Star(Box::new(T::Chr(97))))));
+            v.push(T::CatL(w.iter().map(|&c| if c % 2 == 0 { T::Chr(c) } else { T::Rng(c, c + 1) }).collect()));
+        }
+    }
+    for &n in &[17u32, 33] {
+        v.push(T::AndL((0..n).map(|i| T::Not(Box::new(T::Chr(200 + 2 * i)))).collect()));
+        v.push(T::AltL((0..n).map(|i| T::Str(vec![97, 200 + 2 * i])).collect()));
+    }
     for &n in &[9u32, 16, 17, 18, 20, 33, 40] {
         let sep: Vec<T> = (0..n).map(|i| T::Chr(100 + 3 * i)).collect();
         let adj: Vec<T> = (0..n).map(|i| T::Chr(100 + i)).collect();
